@@ -67,6 +67,13 @@ SITES = [
     ('[AtLeast("a" >> "b") | "", /[ab]*/]', '[("a" >> "b"){2,} | "", /[ab]*/]'),
     ('Look("a" >> "b")', '[Expect("a" >> "b"), /[ab1]*/]'),
     ('Many(Pair("a")) << /a*/', '(["a", "a"])* << /a*/'),
+    # several instantiations at ONE position that differ only in a keyword argument (each has its own outcome)
+    ('Wrap("a", y="!") | Wrap("a", y="1")', '("!" >> "a" << "!") | ("1" >> "a" << "1")'),
+    ('Wrap(y="!", x="a") | Wrap(y="!", x="b")', '("!" >> "a" << "!") | ("!" >> "b" << "!")'),
+    ('Rpt("a", k=`1`) << "b" | Rpt("a", k=`2`) << "1"', '"a"{1} << "b" | "a"{2} << "1"'),
+    ('Expect(Rpt(x="a", k=`1`)) >> Rpt(x="a", k=`2`)', 'Expect("a"{1}) >> "a"{2}'),
+    ('[Expect(Val(v=`1`)), Val(v=`2`)]', '[Expect("a" >> `1`), "a" >> `2`]'),
+    ('let n = `1` in let m = `2` in (Rpt("a", k=n) << "b" | Rpt("a", k=m))', 'let n = `1` in let m = `2` in ("a"{n} << "b" | "a"{m})'),
     ('Wrap(x=/[ab]/, y=/[!?]/)', '/[!?]/ >> /[ab]/ << /[!?]/'),
     ('let n = /[ab]/ in Wrap(y="!", x=Eq(n))', 'let n = /[ab]/ in "!" >> (/[ab]/ where `lambda v: v == n`) << "!"'),
 ]
@@ -75,7 +82,7 @@ BAD_SITES = ['Pair()', 'Pair("a", "b")', 'Pair(z="a")']
 TEXTS = [''.join(p) for L in range(0, 4) for p in itertools.product('ab1', repeat=L)] + \
     ['aa', 'a-a', 'aa-aa', 'b.-b.', 'bb.-b.', 'bcbc-bc', 'babab-ab', '!1!', '1!', '2aa', '211', '1a', '(a)', '((a))', '(a)(b)',
      '(1)(2)', '()', '(())', 'abac', 'ababac', 'ac', 'az', 'ac!', 'ab!', 'a!', 'abab', 'aba', 'ababa', 'abb', 'aaa', 'aaaa', 'aab', 'ab', 'abab', '1a1a', 'ax', 'xxa', 'aq-aq', 'bb', 'bc', 'a.', 'bb-b', 'a1', '!a!', '?b!', 'a-a1',
-     'aabbaa', '11aa11', '1111', 'aaaa', 'ab-ab', 'a1-a1', '!b!', 'b!b']
+     'aabbaa', '11aa11', '1a1', '!b!', 'aa1', 'aab', 'aa', 'ab', '1111', 'aaaa', 'ab-ab', 'a1-a1', '!b!', 'b!b']
 
 
 def run(R):
